@@ -2,6 +2,7 @@
 package c13
 
 import (
+	"runtime"
 	"fmt"
 	"strings"
 	"time"
@@ -577,6 +578,7 @@ func Run(c *engine.Ctx) {
 		func(a, b proto.Message) bool { return a.(*sbom.NodeList).Equal(b.(*sbom.NodeList)) }, nil)
 	deepNesting(c)
 	afterEdit(c)
+	wideLists(c)
 	// nil argument
 	c.Group("nil")
 	c.Case(func() any { return "Equal(nil)" }, func(t *engine.T) *engine.Violation {
@@ -695,4 +697,63 @@ func afterEdit(c *engine.Ctx) {
 		}
 	}
 	c.Bound("after-edit", fmt.Sprintf("%d in-place edits (every deviation of a fully populated and of a sparse node, nested to depth 2) between two rounds of Checksum / Node.Equal / NodeList.Equal on the same values; second answers = answers on a fresh copy of the edited value", n))
+}
+
+// wideLists: node lists of 131, 515 and 1027 nodes under several processor counts (an environment answer): an equal
+// copy, the nodes in another order (last node first, reversed) are equal; a change of one node at the first, a middle
+// and each of the last three positions makes the lists unequal, in both directions.
+func wideLists(c *engine.Ctx) {
+	c.Group("wide-lists")
+	sizes := []int{131, 515, 1027}
+	procs := []int{2, 3, 4, 16}
+	c.Bound("wide-lists", fmt.Sprintf("lists of %v nodes x GOMAXPROCS %v: equal copy, last node moved to the front, reversed order are equal; one node changed at position first / middle / each of the last three is unequal in both directions", sizes, procs))
+	mk := func(n int) *sbom.NodeList {
+		nl := &sbom.NodeList{RootElements: []string{"w0000"}}
+		for i := 0; i < n; i++ {
+			id := fmt.Sprintf("w%04d", i)
+			nl.Nodes = append(nl.Nodes, &sbom.Node{Id: id, Name: "n-" + id, Version: "1", Hashes: map[int32]string{1: "h" + id}})
+			if i > 0 {
+				nl.Edges = append(nl.Edges, &sbom.Edge{From: "w0000", Type: sbom.Edge_contains, To: []string{id}})
+			}
+		}
+		return nl
+	}
+	for _, n := range sizes {
+		for _, pr := range procs {
+			n, pr := n, pr
+			c.Case(func() any { return map[string]int{"nodes": n, "GOMAXPROCS": pr} }, func(t *engine.T) *engine.Violation {
+				defer runtime.GOMAXPROCS(runtime.GOMAXPROCS(pr))
+				base := mk(n)
+				if cp := mk(n); !base.Equal(cp) || !cp.Equal(base) {
+					return engine.Violate("reflexive", "wide", "two identically built lists of %d nodes compare unequal (GOMAXPROCS %d)", n, pr)
+				}
+				moved := mk(n)
+				last := moved.Nodes[n-1]
+				moved.Nodes = append([]*sbom.Node{last}, moved.Nodes[:n-1]...)
+				if !base.Equal(moved) || !moved.Equal(base) {
+					return engine.Violate("order-insensitive", "wide", "%d nodes, GOMAXPROCS %d: moving the last node to the front makes the lists unequal", n, pr)
+				}
+				rev := mk(n)
+				for i, j := 0, n-1; i < j; i, j = i+1, j-1 {
+					rev.Nodes[i], rev.Nodes[j] = rev.Nodes[j], rev.Nodes[i]
+				}
+				if !base.Equal(rev) || !rev.Equal(base) {
+					return engine.Violate("order-insensitive", "wide", "%d nodes, GOMAXPROCS %d: the reversed node order makes the lists unequal", n, pr)
+				}
+				t.Transitions(6)
+				for _, idx := range []int{0, n / 2, n - 3, n - 2, n - 1} {
+					v := mk(n)
+					v.Nodes[idx].Name += "-changed"
+					t.Transitions(2)
+					t.Validated(1)
+					if base.Equal(v) || v.Equal(base) {
+						return engine.Violate("discrimination", "", "%d nodes, GOMAXPROCS %d: a changed name of the node at position %d is not seen by NodeList.Equal", n, pr, idx)
+					}
+				}
+				t.State(fmt.Sprint("wide", n, pr))
+				t.Outcome("wide-lists-ok")
+				return nil
+			})
+		}
+	}
 }
